@@ -1,47 +1,49 @@
 (** C20 — siphons, traps and pathway realizability match their Petri-net definitions.
-    Statements only; proofs are in proof/C20_*.v, definitions of the notions used here
-    (siphon, trap, minimal_among, same_set, antichain, weight, ordering, realizes) in proof/C20_Spec.v. *)
+    Statements only.  The notions used (siphon, trap, minimal_among, same_set, antichain, weight,
+    ordering, realizes, nonneg, markings_along) are defined in proof/C20_Spec.v, [path] (firing
+    sequences of a net at the level of marking tuples) in proof/C20_Bfs.v. *)
 From Coq Require Import ZArith NArith List Lia.
 Import ListNotations.
-From SK Require Import model.C20_Model proof.C20_Spec proof.C20_Siphon proof.C20_Petri proof.C20_Bfs.
+From SK Require Import model.C20_Model proof.C20_Spec proof.C20_Siphon proof.C20_Petri proof.C20_Bfs proof.C20_Build proof.C20_Main.
+Local Open Scope nat_scope.
 
-(** The index predicates are the Petri-net definitions: for every network over species 0..n-1 and
-    every set X of species indices, on the bipartite export of the network. *)
-Theorem C20_siphon_pred : forall (n : nat) (rs : list rxn) (X : list nat),
+(** The index predicate [_is_siphon_indices] is the Petri-net definition: for every network over the
+    species 0..n-1 and every set X of species indices, evaluated on the bipartite export of the
+    network exactly as [find_siphons] calls it. *)
+Theorem C20_siphon_pred :
+  forall (n : nat) (rs : list rxn) (X : list nat),
   wf_net n rs -> in_range n X ->
   let G := bipartite_of n rs in
   is_siphon_indices G (species_nodes_sorted G) (g_reactions G) X = true <-> siphon rs X.
-Proof. intros n rs X Hwf HX. exact (siphon_pred n rs Hwf X HX). Qed.
+Proof. exact main_siphon_pred. Qed.
 Print Assumptions C20_siphon_pred.
 
-Theorem C20_trap_pred : forall (n : nat) (rs : list rxn) (X : list nat),
+(** Same for [_is_trap_indices]. *)
+Theorem C20_trap_pred :
+  forall (n : nat) (rs : list rxn) (X : list nat),
   wf_net n rs -> in_range n X ->
   let G := bipartite_of n rs in
   is_trap_indices G (species_nodes_sorted G) (g_reactions G) X = true <-> trap rs X.
-Proof. intros n rs X Hwf HX. exact (trap_pred n rs Hwf X HX). Qed.
+Proof. exact main_trap_pred. Qed.
 Print Assumptions C20_trap_pred.
 
-(** [_minimal_sets] on ANY candidate list (in any order, duplicates allowed) returns exactly the
+(** [_minimal_sets] on ANY candidate list (any order, duplicates allowed) returns exactly the
     inclusion-minimal candidates, each once. *)
-Theorem C20_minimal_sets : forall (cands : list (list nat)),
+Theorem C20_minimal_sets :
+  forall (cands : list (list nat)),
   (forall X, In X (minimal_sets cands) ->
      In X cands /\ forall T, In T cands -> incl T X -> incl X T) /\
   (forall X, In X cands -> (forall T, In T cands -> incl T X -> incl X T) ->
      exists X', In X' (minimal_sets cands) /\ same_set X' X) /\
   antichain (minimal_sets cands).
-Proof.
-  intros cands. split; [|split].
-  - apply minimal_sets_sound.
-  - apply minimal_sets_complete.
-  - apply minimal_sets_antichain.
-Qed.
+Proof. exact main_minimal_sets. Qed.
 Print Assumptions C20_minimal_sets.
 
-(** [find_siphons] / [find_traps] on the export of any network with at least one species and one
-    reaction: the reported sets are exactly the inclusion-minimal non-empty siphons (traps) — minimal
-    among the siphons of EVERY size — that have at most max_size members (all of them when
-    max_size is None), each reported once. *)
-Theorem C20_find_siphons : forall (n : nat) (rs : list rxn) (max_size : option nat),
+(** [find_siphons] on the export of any network with at least one species and one reaction: the reported
+    sets are exactly the inclusion-minimal non-empty siphons — minimal among the siphons of EVERY size —
+    that have at most max_size members (all of them when max_size is None), each reported once. *)
+Theorem C20_find_siphons :
+  forall (n : nat) (rs : list rxn) (max_size : option nat),
   wf_net n rs -> n <> 0 -> rs <> [] ->
   exists out, find_siphons (bipartite_of n rs) max_size = Some out /\
     (forall X, In X out ->
@@ -51,10 +53,14 @@ Theorem C20_find_siphons : forall (n : nat) (rs : list rxn) (max_size : option n
        minimal_among (fun Y => in_range n Y /\ siphon rs Y) Y ->
        exists X, In X out /\ same_set X Y) /\
     antichain out.
-Proof. intros n rs max_size Hwf Hn Hrs. exact (find_siphons_spec n rs max_size Hwf Hn Hrs). Qed.
+Proof. exact main_find_siphons. Qed.
 Print Assumptions C20_find_siphons.
 
-Theorem C20_find_traps : forall (n : nat) (rs : list rxn) (max_size : option nat),
+(** [find_traps] on the export of any network with at least one species and one reaction: the reported
+    sets are exactly the inclusion-minimal non-empty traps — minimal among the traps of EVERY size —
+    that have at most max_size members (all of them when max_size is None), each reported once. *)
+Theorem C20_find_traps :
+  forall (n : nat) (rs : list rxn) (max_size : option nat),
   wf_net n rs -> n <> 0 -> rs <> [] ->
   exists out, find_traps (bipartite_of n rs) max_size = Some out /\
     (forall X, In X out ->
@@ -64,25 +70,63 @@ Theorem C20_find_traps : forall (n : nat) (rs : list rxn) (max_size : option nat
        minimal_among (fun Y => in_range n Y /\ trap rs Y) Y ->
        exists X, In X out /\ same_set X Y) /\
     antichain out.
-Proof. intros n rs max_size Hwf Hn Hrs. exact (find_traps_spec n rs max_size Hwf Hn Hrs). Qed.
+Proof. exact main_find_traps. Qed.
 Print Assumptions C20_find_traps.
 
-(** Firing rule: a transition is enabled exactly when the marking covers its reactants, and firing
-    changes the marking by products minus reactants at every place; the tuple encoding reads the
-    marking at the places in index order. *)
-Theorem C20_fire : forall (t : transition) (m : dict),
+(** Firing rule: a transition is enabled exactly when the marking covers its reactants; firing changes
+    the marking by products minus reactants at every place; the tuple encoding reads the marking at
+    the places in index order. *)
+Theorem C20_fire :
+  forall (t : transition) (m : dict),
   (enabled_t t m = true <-> forall p w, In (p, w) (t_pre t) -> (w <= get m p)%Z) /\
   (forall p, get (fire_t t m) p = (get m p - weight (t_pre t) p + weight (t_post t) p)%Z) /\
   (forall net i p, nth_error (pn_places net) i = Some p ->
                    nth_error (marking_to_tuple net (fire_t t m)) i = Some (get (fire_t t m) p)).
-Proof.
-  intros t m. split; [apply enabled_t_spec|split; [apply fire_t_spec|]].
-  intros net i p. apply marking_to_tuple_nth.
-Qed.
+Proof. exact main_fire. Qed.
 Print Assumptions C20_fire.
 
 (** The fuel that makes the [while q] loop structurally recursive is never exhausted. *)
-Theorem C20_bfs_fuel_enough : forall net target max_states max_depth q visited nen nfire,
-  bo_verdict (bfs (S (N.to_nat max_states)) net target max_states max_depth q visited 0 nen nfire) <> OutOfFuel.
-Proof. intros. apply bfs_fuel; simpl; lia. Qed.
+Theorem C20_bfs_fuel_enough :
+  forall net target max_states max_depth q visited nen nfire,
+  bo_verdict (bfs (S (N.to_nat max_states)) net target max_states max_depth q visited 0 nen nfire)
+  <> OutOfFuel.
+Proof. exact main_bfs_fuel_enough. Qed.
 Print Assumptions C20_bfs_fuel_enough.
+
+(** Soundness of [is_realizable], for every vertex list, edge list, flow and pair of bounds: a returned
+    sequence fires each edge exactly flow times, every step is covered by the current marking
+    (starting from the zero marking) and the final marking is zero again; with unique species per
+    tail (a Python dict) every marking passed through is non-negative. *)
+Theorem C20_realizable_sound :
+  forall (vertices : list N) (edges : list edge) (flow : list Z) (max_states max_depth : N) (sq : list N),
+  bo_verdict (is_realizable (build_petri_net_from_flow vertices edges flow) max_states max_depth) = Found sq ->
+  realizes edges flow sq /\
+  ((forall e, In e edges -> NoDup (map fst (fst e))) -> Forall nonneg (markings_along edges zero sq)).
+Proof. exact main_realizable_sound. Qed.
+Print Assumptions C20_realizable_sound.
+
+(** Completeness within the bounds.  FULL STATEMENT (not proved in this form):
+      (exists sq, realizes edges flow sq) ->
+      #{(remaining flow, species marking) reachable from (flow, 0)} <= max_states ->
+      sum flow <= max_depth ->  exists sq', verdict = Found sq'.
+    PROVED: the same with the three premises stated on the extended Petri net that the code builds
+    (places = species + one supply and one target place per edge): a firing sequence from M0 to MT
+    exists, the markings reachable from M0 fit into a list of at most max_states elements, and no
+    firing sequence from M0 is longer than max_depth.  MISSING for the full form: the converse
+    simulation (an ordering of the pathway is a firing sequence of the extended net — the forward
+    direction is [path_ordering], used for soundness), the bijection between reachable extended
+    markings and (remaining flow, species marking) pairs, and the bound |sequence| <= sum flow. *)
+Theorem C20_realizable_complete_partial :
+  forall (vertices : list N) (edges : list edge) (flow : list Z) (max_states max_depth : N) (R : list tuple),
+  let b := build_petri_net_from_flow vertices edges flow in
+  let net := b_net b in
+  let start := marking_to_tuple net (b_M0 b) in
+  let target := marking_to_tuple net (b_MT b) in
+  (exists sq, path net start sq target) ->
+  (forall s m, path net start s m -> In m R) ->
+  (N.of_nat (length R) <= max_states)%N ->
+  (forall s m, path net start s m -> (N.of_nat (length s) <= max_depth)%N) ->
+  exists sq', bo_verdict (is_realizable b max_states max_depth) = Found sq'.
+Proof. exact main_realizable_complete_partial. Qed.
+Print Assumptions C20_realizable_complete_partial.
+
